@@ -194,7 +194,7 @@ CHECKS = {
             "engine": "solver-world/presentation",
             "design_ref": "DESIGN.md section 3, engine C, C18",
             "level_text": "Seeded search over problems x relations: for CP-ALS, CP-APR (mu/pdnr/pqnr), HOSVD, Tucker-ALS and GCP/L-BFGS-B a base run and a variant of the same problem are executed inside the simulated world (scripted clock, seeded global random stream, ARPACK start vector behind a seam, captured stdout/logging) and the denoted tensors, iteration counts, fits and the random-stream state afterwards are compared. R1-R4 (same seed incl. fresh interpreter under another PYTHONHASHSEED and after unrelated eigen-solves, verbosity, clock, returned guess) are the simulation proper; R5-R7 (dense/sparse, positive scaling, consistent mode relabelling) are metamorphic relations on the same harness.",
-            "level_note": "Tolerances: bit-identical (R1,R2,R3), 1e-12 (R4; 1e-8 for GCP), 1e-8 (R5-R7) relative on the dense tensor, fits to 1e-6. Iteration counts pinned (stoptol=0, small maxiters), generic continuous data, admissible ranks; pairs whose eigen-gap at a truncation is < 1e-6 are skipped and counted. ARPACK seam always on.",
+            "level_note": "Tolerances: bit-identical (R1,R2,R3), 1e-12 (R4; 1e-8 for GCP), 1e-8 (R5-R7) relative on the dense tensor, fits to 1e-6. Iteration counts pinned (stoptol=0, small maxiters) for R4-R7, a live convergence tolerance for the bit-identity relations; GCP relabelling with an explicit guess, <= 2 L-BFGS-B iterations, 1e-6; generic continuous data, admissible ranks; pairs whose eigen-gap at a truncation is < 1e-6 are skipped and counted. ARPACK seam always on.",
             "technique": "deterministic simulation: paired runs under controlled seed/clock/output/interpreter seams; metamorphic relations for representation, scale and relabelling",
         },
         "level": "exploration",
